@@ -327,7 +327,7 @@ def eval_cases(ctx, corr, days, shard=40):
         if rc != 0 or not m:
             corr.mismatches.append({"kind": "coq-eval", "shard": nm, "output": o[-1500:]})
             continue
-        pairs = re.findall(r"\((\d+)(?:%nat)?,\s*(\d+)(?:%nat)?\)", m.group(1))
+        pairs = re.findall(r"\(\s*(\d+)(?:%nat)?\s*,\s*(\d+)(?:%nat)?\s*\)", m.group(1))
         if m.group(1).strip() != "[]" and not pairs:
             corr.mismatches.append({"kind": "coq-eval", "shard": nm, "output": o[-1500:]})
         for idx, mask in pairs:
